@@ -4,5 +4,7 @@ package props
 import (
 	_ "verifharness/props/c10"
 	_ "verifharness/props/c11"
+	_ "verifharness/props/c12"
+	_ "verifharness/props/c13"
 	_ "verifharness/props/c14"
 )
